@@ -1,6 +1,7 @@
 """C20 - case-insensitive matching ignores case (DESIGN.md 6/C20)."""
 import json, os
 import vlib
+from checks import findobs
 
 LEVEL = "model_checking"
 
@@ -42,7 +43,9 @@ def obs_case(ctx, res, args, label):
         if b["rule"] == "SPECVARIANT":
             raise vlib.Broken(f"the specification itself is not invariant under case flips for {r['text']!r} (model-level check)")
         v = {"rule": b["rule"], "pattern": r["text"], "options": r["o"], "rtl": r["rtl"], "find_mode": r["mode"],
-             "input": "".join(chr(x) for x in r["s"]), "base_result": r["base"]}
+             "input_text": "".join(chr(x) for x in r["s"]), "base_result": r["base"],
+             # what the attribution of gate-identified findings needs (same vocabulary as the find legs)
+             "p": r["p"], "dialect": "net", "input": r["s"], "start": len(r["s"]) if r["rtl"] else 0}
         if b["rule"] == "case.input-flip":
             iv = r["iv"][b["k"] - 1]
             v.update({"flipped_input": "".join(chr(x) for x in iv["s"]), "flipped_result": iv["res"]})
@@ -76,3 +79,8 @@ def run(ctx, res):
 
 def replay(ctx, res, v):
     raise vlib.Broken("re-run the check with the same VERIF_SEED: families are generated deterministically")
+
+
+def attribute(ctx, viols, gate):
+    """case.spec (the real outcome differs from RegexSem's) can be an occurrence of a finding that one rewrite gate isolates"""
+    return findobs.attribute_find(ctx, viols, gate, rules=("case.spec",))
